@@ -86,6 +86,8 @@ def spellings_for(ast) -> t.List[t.Tuple[int, int]]:
     sp = [(i, 0) for i in range(n)]
     if not isinstance(ast, str):
         sp.append((0, 1))
+        if leaves_of(ast) & {'int', 'any'} and size(ast) <= 3:
+            sp.append((0, 2))      # third child spelling: int as a bound TypeVar, Any as a free one (and the containers' third names)
     return sp
 
 
@@ -152,6 +154,13 @@ def run_shard(shard, tier, judge, per_type=None, value_fn=values_for, expr_fn=gr
                                        f"judging {grammar.render(ast)} on {values.expr(v)} raised {type(e).__name__}: "
                                        f"{core.sstr(e)} at {tb.filename}:{tb.lineno}", cell_desc(ast, sp, vi, v), size(ast) * 10)
             res['states'] += len(vals)
+            # second look at the first values AFTER everything else went through the same (memoised) converter: whatever a
+            # converter remembers of earlier values must not show (a witness found only here is replayed by shard)
+            for vi, v in enumerate(vals[:6]):
+                try:
+                    judge(ctx, ast, sp, T, vi, v)
+                except Exception:  # noqa: already reported by the first pass
+                    pass
         if len(res['samples']) < 2 and not isinstance(ast, str):
             res['samples'].append({'type': grammar.render(ast), 'spelling': repr(grammar.build(ast, 0, 0))[:120],
                                    'n_values': len(vals), 'first_values': [values.expr(v)[:60] for v in vals[:4]]})
